@@ -75,9 +75,24 @@ def impl(case):
     return C05.run_real(case, make_sliced(case))
 
 
+def n_stages(case):
+    """how many operators `_slice.py` chains for this slice (mirrors its sign tests)"""
+    start = 0 if case["start"] is None else case["start"]
+    stop = case["stop"]
+    _stop = (1 << 63) - 1 if stop is None else stop
+    step = 1 if case["step"] is None else case["step"]
+    if start < 0 < _stop and stop is not None:
+        n = 4
+    else:
+        n = (1 if _stop >= 0 else 0) + (1 if start != 0 else 0)
+    return n + (1 if _stop < 0 else 0) + (1 if step > 1 else 0)
+
+
 def model_request(case):
-    if case["op"] == "slice_exh" or case.get("mode") == "feedback":
+    if case["op"] == "slice_exh":
         return None
+    if case.get("mode") == "feedback" and ((case["step"] is not None and case["step"] < 0) or n_stages(case) != 1):
+        return None  # re-entrant runs are modelled for single-operator slices only (RxModel/OpsFb.lean); longer pipelines: oracle only
     return {k: v for k, v in case.items() if k not in ("form", "index")}
 
 
@@ -247,7 +262,9 @@ LEVEL_TEXT = ("Lean theorems: slice_eq_pyslice — for every list, every start/s
               "slice_ops_eq — the same for the composed C05 handler models run through the real observer/disposal chain on any raw input ending in "
               "completion; slice_error_passthrough; slice_negative_step (TypeError); getitem_int_nonneg / getitem_minus_one for source[i]. "
               "Tied to /repo by an exhaustive table (28 952 cases: real code vs Python slicing, real code vs model, Lean pySlice vs Python slicing) "
-              "and timed differential runs on generated hot timelines.")
+              "and timed differential runs on generated hot timelines; 30% of the generated cases use a re-entrant feedback source (consumer pushes the "
+              "next element from inside on_next): list-slice oracle for all, model correspondence (C05's proved re-entrant models) for the "
+              "single-operator slices.")
 LEVEL_NOTE = ("Full for step >= 1 under len <= sys.maxsize. The model is the FIXED slice_ (fixes/C07_slice_negative_start.patch; the fix tags elements "
               "with scan, modelled by scanSeedOp); the pinned behaviour is `pipeline false` with counter-example theorems slice_neg_start_counter(2) "
               "(range(10)[-2:9] -> [7,8], [-3:5] -> [2,3,4]). pySlice is stated as clamp + segment + stride and proved equal to the index comprehension over range(s, e, step) "
